@@ -1,3 +1,5 @@
+import math
+
 import numpy as np
 import torch
 from torch.nn import functional as F
@@ -148,6 +150,11 @@ def rational_quadratic_spline(
         )
         b = input_derivatives * remaining - offsets * other_slopes
         c = -input_delta * offsets
+        # The root below is unchanged when a, b and c are multiplied by a common factor.  They grow
+        # like the height of the box, and their squares leave the floating range for boxes beyond
+        # ~1e19 (float32): bring them to order one with a power of two, which is exact.
+        scale = 2.0 ** -math.frexp(float(top - bottom))[1]
+        a, b, c = a * scale, b * scale, c * scale
 
         discriminant = b.pow(2) - 4 * a * c
         # The discriminant is non-negative and the root lies in [0, 1] mathematically, but rounding
